@@ -124,7 +124,7 @@ def retSuffix (c : Caller) (unwound : Bool := false) : String :=
 `cleanup` panicked, or — cause `stoppanic` after an early kill — the exploding state was dropped at the
 end of the task instead of inside the terminal event -/
 def taskPanicked (st : St) : Bool :=
-  st.g.exiter.unwound || (st.c.cause == "stoppanic" && st.g.sh.killPending)
+  st.g.exiter.unwound || (st.c.cause == "stoppanic" && st.g.sh.killPending) || st.c.cause == "abort"
 
 def sf (st : St) : String := showFields st.g st.ports (st.c.cause == "stoppanic")
 
@@ -312,7 +312,7 @@ def step1 (st : St) (op impl : String) : St × StepOut :=
     -- marker, a handler panic dropped the processing loop's future (and the port set with it)
     let ports : Ports :=
       { stop := !(cause == "stop" || cause == "stoppanic"), signal := cause != "kill", marker := cause == "drain",
-        rx0 := cause != "panic" }
+        rx0 := cause != "panic" && cause != "abort" }
     let (c, _) := track { cause := cause } iw
     ({ g := g, ports := ports, callers := callers, closed := List.replicate nw false, c := c, diverged := false },
      { model := s!"ok {showFields g ports (cause == "stoppanic")} at={exiterAt g}" })
@@ -323,7 +323,11 @@ def step1 (st : St) (op impl : String) : St × StepOut :=
     -- (only a clean shutdown hands the state to the terminal event; after an early kill it is dropped when
     -- the task ends, after `cleanup`)
     let panics := st.c.cause == "stoppanic" && point == "cleanup.notify" && !st.g.exiter.unwound && !st.g.sh.killPending
-    let g' := _root_.ExitRace.step st.g (if panics then .unwind else .e)
+    let g1 := _root_.ExitRace.step st.g (if panics then .unwind else .e)
+    -- task cancellation: only the guard's `cleanup` runs, i.e. ONE `set_status(Stopping)` (the model's `set1`,
+    -- elected); the model's second call (`set2`, never elected: a stutter) has no counterpart
+    let g' := if st.c.cause == "abort" && g1.exiter.pc == .set2 (.publish stStopping) && !(st.g.exiter.pc == g1.exiter.pc)
+      then _root_.ExitRace.step g1 .e else g1
     let model := (if pre == point then "" else s!"model-at={pre} ") ++ s!"{sf { st with g := g' }} at={exiterAt g'}"
     let (c, orc) := track st.c iw
     let c := { c with unregRuns := c.unregRuns + (if point == "status.unreg_pid" then 1 else 0),
